@@ -5,7 +5,7 @@ from sexpr import enc, hexs
 from odata_query import ast
 from odata_query.grammar import ODataLexer, ODataParser
 
-PROP_MODS = ["ODataVerif.Tie.ParserTables", "ODataVerif.Props.C06", "ODataVerif.Props.C06Image"]
+PROP_MODS = ["ODataVerif.Tie.ParserTables", "ODataVerif.Props.C06", "ODataVerif.Props.C06Image", "ODataVerif.Props.C06Value"]
 
 def canon_pyval(node):
     try:
@@ -123,15 +123,110 @@ def spellings(ctx):
     out.append(("duration'PT'", "Duration", "PT", "ok duration 0"))
     return out
 
+def spec_spellings(ctx):
+    """Spec/LitSpell.lean (the subject of the C06Value theorems) spells texts from MEANINGS; here random meanings are spelled by Lean, the text is
+    compared with this module's own formatting of the same meaning (so the specification says what the ABNF says), and the texts join the
+    spellings that are lexed, parsed, evaluated (py_val) and judged on the real code."""
+    from sexpr import unhex
+    rng = ctx.rng
+    n = 400 if ctx.thorough else 60
+    reqs, expect = [], []
+    def add(req, text, kind, val, mean):
+        reqs.append(req); expect.append((text, kind, val, mean))
+    def secs():
+        k = rng.randrange(3)
+        s = rng.choice([0, 7, 30, 59])
+        if k == 0:
+            return "-", "", 0, 0
+        if k == 1:
+            return str(s), f":{s:02d}", s, 0
+        fs = [rng.randrange(10) for _ in range(rng.choice([1, 2, 3, 6, 7, 12]))]
+        return f"{s}:" + ".".join(map(str, fs)), f":{s:02d}." + "".join(map(str, fs)), s, int(("".join(map(str, fs)) + "000000")[:6])
+    for _ in range(n):
+        w = rng.choice([1, 2, 5, 19, 25]); v = rng.randrange(10 ** w)
+        add(driver.req("litspell", "int", str(w), str(v)), str(v).rjust(w, "0"), "Integer", str(v).rjust(w, "0"), f"ok int {v}")
+        y, m = rng.choice([1, 4, 100, 400, 999, 1000, 1900, 2000, 2024, 9999]), rng.randrange(1, 13)
+        d = rng.randrange(1, [31, 29 if (y % 4 == 0 and y % 100 != 0) or y % 400 == 0 else 28, 31, 30, 31, 30, 31, 31, 30, 31, 30, 31][m - 1] + 1)
+        ds = f"{y:04d}-{m:02d}-{d:02d}"
+        add(driver.req("litspell", "date", str(y), str(m), str(d)), ds, "Date", ds, f"ok date {y} {m} {d}")
+        h, mi = rng.randrange(24), rng.randrange(60)
+        sw, st, s, us = secs()
+        if sw != "-":
+            ts = f"{h:02d}:{mi:02d}{st}"
+            add(driver.req("litspell", "time", str(h), str(mi), sw), ts, "Time", ts, f"ok time {h} {mi} {s} {us}")
+        sw, st, s, us = secs()
+        ow, ot, om = rng.choice([("-", "", "naive"), ("Z", "Z", "0"), ("z", "z", "0"), ("p:5:30", "+05:30", "330"), ("m:11:00", "-11:00", "-660"), ("p:0:0", "+00:00", "0"), ("m:23:59", "-23:59", "-1439")])
+        sep = rng.choice("Tt")
+        dts = f"{ds}{sep}{h:02d}:{mi:02d}{st}{ot}"
+        add(driver.req("litspell", "datetime", str(y), str(m), str(d), sep, str(h), str(mi), sw, ow), dts, "DateTime", dts.upper(), f"ok datetime {y} {m} {d} {h} {mi} {s} {us} {om}")
+        gn = rng.getrandbits(128) if rng.random() < 0.8 else rng.choice([0, 1, 2 ** 128 - 1, 2 ** 64])
+        mask = rng.getrandbits(32)
+        hx = "".join((c.upper() if mask >> i & 1 else c) for i, c in enumerate(f"{gn:032x}"))
+        gs = f"{hx[:8]}-{hx[8:12]}-{hx[12:16]}-{hx[16:20]}-{hx[20:]}"
+        add(driver.req("litspell", "guid", str(gn), str(mask)), gs, "GUID", gs, f"ok guid {gn}")
+        c = "".join(rng.choice("ab'% _\\é\n") for _ in range(rng.randrange(0, 9)))
+        add(driver.req("litspell", "quote", hexs(c)[1:-1]), "'" + c.replace("'", "''") + "'", "String", c, "ok str " + hexs(c))
+        # durations: (wire, text, value) per component; small numbers (the real py_val computes in doubles)
+        def comp(letter):
+            if rng.random() < 0.45:
+                return "-", "", 0
+            # years and months stay small: the real py_val multiplies them by 365.25 / 30.44 in doubles, exact to the microsecond only for small values
+            ww = rng.choice([0, 0, 1, 2]); vv = rng.randrange(min(14, 10 ** (ww + 1))) if letter in "YM" and not time_part[0] else rng.randrange(10 ** min(ww + 1, 2))
+            return f"{ww}:{vv}", str(vv).rjust(ww + 1, "0") + letter, vv
+        sg = rng.choice(["n", "p", "m"])
+        time_part = [False]
+        (yw, yt, yv), (mw, mt, mv), (dw, dtx, dv) = comp("Y"), comp("M"), comp("D")
+        time_part[0] = True
+        if rng.random() < 0.3:
+            tpw, tpt, tsecs, tus = "-", "", 0, 0
+        else:
+            (hw, ht, hv), (miw, mit, miv) = comp("H"), comp("M")
+            k = rng.randrange(3)
+            if k == 0:
+                sw2, st2, sus = "-", "", 0
+            elif k == 1:
+                vv = rng.randrange(100); sw2, st2, sus = f"1:{vv}", f"{vv:02d}S", vv * 1000000
+            else:
+                vv = rng.randrange(60); fs = [rng.randrange(10) for _ in range(rng.choice([1, 2, 3, 6]))]
+                sw2, st2, sus = f"0:{vv}:" + ".".join(map(str, fs)), f"{vv}." + "".join(map(str, fs)) + "S", vv * 1000000 + int(("".join(map(str, fs)) + "000000")[:6])
+                if vv >= 10:
+                    sw2 = f"1:{vv}:" + ".".join(map(str, fs))
+            tpw, tpt, tsecs, tus = f"{hw};{miw};{sw2}", "T" + ht + mit + st2, hv * 3600 + miv * 60, sus
+        body = {"n": "", "p": "+", "m": "-"}[sg] + "P" + yt + mt + dtx + tpt
+        us = (yv * 31557600 + mv * 2630016 + dv * 86400 + tsecs) * 1000000 + tus
+        us = -us if sg == "m" else us
+        add(driver.req("litspell", "duration", sg, yw, mw, dw, tpw), body + f" {us}", "Duration", body, f"ok duration {us}")
+    outs = driver.run_batch(reqs)
+    bad, sp = [], []
+    for (text, kind, val, mean), o in zip(expect, outs):
+        got = o.split(" ")
+        try:
+            spelled = unhex(got[0]) + ("" if len(got) == 1 else " " + got[1])
+        except Exception:  # noqa
+            spelled = "<" + o + ">"
+        if spelled != text:
+            bad.append((kind, text, spelled))
+            continue
+        body = text.split(" ")[0] if kind == "Duration" else text
+        sp.append(("duration'" + body + "'" if kind == "Duration" else body, kind, val, mean))
+    ctx.evaluations += len(reqs)
+    ctx.note(f"Spec/LitSpell: {len(reqs)} meanings spelled by Lean, {len(bad)} differ from the ABNF formatting")
+    ctx.extra["litspell"] = {"meanings": len(reqs), "differences": len(bad)}
+    if bad:
+        ctx.broken.append(f"Spec/LitSpell.lean spells {len(bad)} meanings differently from the ABNF; first: {bad[0]}")
+    return sp
+
 IDENTS = ["a", "_x", "A1", "nullable", "anything", "allowed", "trueness", "falsey", "notes", "inside", "android", "orange", "addition", "modern",
           "eqx", "in_", "nullx", "truex", "any_", "all1", "notx", "divide", "subtotal", "multiply", "n.a", "ns.sub.name", "true.x", "null.y", "any.z",
           "a" * 128, "a" * 129, "a." + "b" * 126, "ns1.ns2." + "n" * 121, "a.b.c.d." + "x" * 124, "n." * 63 + "n", "n." * 127 + "n", "nullable." + "n" * 119, "ns." + "n" * 126,
-          "ns." + "n" * 127, "x9_", "İd", "ıd", "ſ", "Kelvin", "fal\u017fe", "FAL\u017fE", "fal\u017fe.x", "n.fal\u017fe", "\u0131n", "d\u0131v", "\u017fub", "é", "日", "ab-cd", "a.", "a..b", ".a", "9a", "a b"]
+          "ns." + "n" * 127, "x9_", "İd", "ıd", "ſ", "Kelvin", "fal\u017fe", "FAL\u017fE", "fal\u017fe.x", "n.fal\u017fe", "\u0131n", "d\u0131v", "\u017fub", "é", "日", "ab-cd", "a.", "a..b", ".a", "9a", "a b",
+          # field names are case-sensitive: spellings that differ only in letter case, one after the other in this one process
+          "Title", "title", "TITLE", "Sales.Region", "sales.region", "SALES.Region", "sales.REGION", "Nullable", "NULLABLE", "userId", "userid", "USERID", "A", "_X", "Eqx", "N.A"]
 CONTEXTS = ["{} eq 1", "1 eq {}", "({})", "f.g({})", "x in ({}, 1)", "k/any(v: v eq {})", "not {}", "{} add 1 lt 2", "concat({}, {})"]
 
 def run(ctx):
     common.build_and_audit(ctx, PROP_MODS, gen=lambda c: gen_tables.generate(["ParserTables"]))
-    sp = spellings(ctx)
+    sp = spellings(ctx) + spec_spellings(ctx)
     lx, ps = ODataLexer(), ODataParser()
     texts = []
     for s, kind, val, mean in sp:
